@@ -219,25 +219,101 @@ RFC3629 = {1: [(None, 0)], 2: [(0x1F, 6), (0x3F, 0)], 3: [(0x0F, 12), (0x3F, 6),
 THRESH = [0x80, 0xE0, 0xF0]
 
 
-def rule_dec(ctx, R):
-    lib = ctx.lib
-    nb = lib.find_bodies(adt=DECODER, trait="core::iter::Iterator", name="next")
-    if len(nb) != 1:
-        ctx.missing("DEC", "Iterator::next of " + DECODER)
-        return
-    b = nb[0]
-    S = Sites(lib, b)
+# lead bytes of well-formed UTF-8 (RFC 3629 / Unicode table 3-7) and the length of the sequence they start
+VALID_LEADS = [(v, 1) for v in range(0x00, 0x80)] + [(v, 2) for v in range(0xC2, 0xE0)] + [(v, 3) for v in range(0xE0, 0xF0)] + \
+              [(v, 4) for v in range(0xF0, 0xF5)]
+
+
+def _dec_table(lib, b, S, pulls):
+    """DEC as a decision table, independent of how the decoder is written (nested ifs, a match on ranges, a width helper, ...):
+    for every valid lead byte v the body is specialised to `first byte == v` (all comparisons of the first byte with constants
+    are decided; the residual body is straight-line); on that residual exactly width(v) pulls are reached, the end offset is the
+    index of the last byte pulled + 1 and the code point, evaluated bit by bit with the continuation bytes symbolic, is the RFC 3629
+    assembly.  Returns (verdict, text): verdict in ok / mismatch / unknown."""
+    from . import cond, bits
     root = S.root
-    # accepted alternative: delegation to core::str decoding
-    if any(s["key"].startswith("core::str::") and ("next_code_point" in s["key"] or "chars" in s["key"] or "from_utf8" in s["key"]) for s in S.calls):
-        ctx.ok("DEC", b, "delegates-to-core", b.span, "decoding is delegated to core::str")
-        return
-    pulls = [s for s in S.keyed(lambda k: core.callee_base(k) == ITER_NEXT) if m(F(Par(1), "inner"), s["args"][0])]
-    pulls = sorted(pulls, key=lambda s: len(b.dominators().get(s["bb"], ())))
-    ctx.check(len(pulls) == 4 and all(b.dominates(pulls[i]["bb"], pulls[i + 1]["bb"]) for i in range(len(pulls) - 1)), "DEC", b, "four-nested-pulls", b.span,
-              "the decoder pulls at most four bytes, each later pull only after the earlier ones; found %d pull sites" % len(pulls))
-    if len(pulls) != 4:
-        return
+    psite = {s["bb"]: (b.path, s["bb"]) for s in pulls}
+
+    def byte_of(t):
+        """pull site whose byte (item.1) the term denotes"""
+        if t[0] == "field" and t[3] == "1" and t[1][0] == "payload" and t[1][1][0] == "call" and t[1][1][3] in psite.values():
+            return t[1][1][3]
+        return None
+    # the first byte: the pull that dominates all others
+    doms = [s for s in pulls if all(b.dominates(s["bb"], o["bb"]) for o in pulls)]
+    if len(doms) != 1:
+        return "unknown", "no single first pull"
+    s0 = psite[doms[0]["bb"]]
+
+    def atoms_for(v):
+        return cond.pin_atoms(lambda t: byte_of(t) == s0, v)
+    cache = {}
+    done = 0
+    for v, w in VALID_LEADS:
+        r = cond.specialise(lib, root, atoms_for(v), cache=cache)
+        if r is None:
+            return "unknown", "exploration budget exhausted for lead byte 0x%02x" % v
+        fv, vis = r
+        rb = fv.root.body
+        got = [s for s in pulls if s["bb"] in vis and s["bb"] in rb.live_blocks()]
+        # order along the (straight-line) residual
+        got.sort(key=lambda s: len(rb.reach(s["bb"])), reverse=True)
+        if any(rb.in_cycle(s["bb"]) for s in got):
+            return "unknown", "a pull inside a loop (lead byte 0x%02x)" % v
+        if len(got) != w:
+            return "mismatch", "lead byte 0x%02x starts a %d-byte sequence but %d byte(s) are pulled" % (v, w, len(got))
+        rets = [x for x in members(pnorm(fv.root.ret())) if x[0] == "agg" and x[2] == "Some"]
+        if len(rets) != 1:
+            return "unknown", "lead byte 0x%02x: %d different Some results remain after specialisation" % (v, len(rets))
+        tup = dict(rets[0][3]).get("0")
+        if tup is None or tup[0] != "tuple" or len(tup[1]) != 2:
+            return "unknown", "lead byte 0x%02x: result is not a pair" % v
+        end, ch = tup[1]
+        last = F(P(C(anykey, ANY, site=psite[got[-1]["bb"]])), "0", "(tuple)")
+        if not m(B("Add", last, K(1)), end):
+            return "mismatch", "lead byte 0x%02x: the end offset must be (index of byte %d) + 1; found %s" % (v, w, show(end))
+        code = ch
+        for _ in range(3):
+            if code[0] == "call" and isinstance(code[1], str) and code[1].endswith("from_u32_unchecked") and len(code[2]) == 1:
+                code = code[2][0]
+            elif code[0] == "cast" and code[3] == "char":
+                code = code[1]
+        order = {psite[s["bb"]]: k for k, s in enumerate(got)}
+
+        def env(t):
+            site = byte_of(t)
+            if site is None:
+                return None
+            k = order.get(site)
+            if k is None:
+                raise bits.Unknown()
+            return bits.const_bits(v, 32) if k == 0 else bits.var_bits("b%d" % k, 8, 32)
+        try:
+            have = bits.ev(code, env, 32)
+        except bits.Unknown:
+            return "unknown", "lead byte 0x%02x: code point expression %s not evaluable bit by bit" % (v, show(code)[:200])
+        want = [bits.ZERO] * 32
+        if w == 1:
+            want = bits.const_bits(v, 32)
+        else:
+            lead_bits = {2: 5, 3: 4, 4: 3}[w]
+            for k in range(1, w):
+                sh = 6 * (w - 1 - k)
+                for q in range(6):
+                    want[sh + q] = frozenset({("b%d" % k, q)})
+            hv = (v & ((1 << lead_bits) - 1)) << (6 * (w - 1))
+            for q in range(32):
+                if (hv >> q) & 1:
+                    want[q] = bits.ONE
+        if have != want:
+            return "mismatch", "lead byte 0x%02x: the code point of a %d-byte sequence is not assembled as in RFC 3629: %s" % (v, w, show(code)[:300])
+        done += 1
+    return "ok", "%d valid lead bytes, %d residual bodies" % (done, len(cache))
+
+
+def _dec_common(ctx, lib, b, S, pulls):
+    """the clauses of DEC that do not depend on how the width dispatch is written"""
+    root = S.root
     psites = [(b.path, s["bb"]) for s in pulls]
     # the first pull is `?`-propagated (end of input -> None), the others are the continuation bytes
     sw0 = switches_on(root, lambda d: d[0] == "discr" and d[1][0] == "call" and core.callee_base(d[1][1]) == "core::ops::Try::branch"
@@ -257,6 +333,52 @@ def rule_dec(ctx, R):
         resid = [s["bb"] for s in S.calls if core.callee_base(s["key"]) == "core::ops::FromResidual::from_residual" and s["tj"]["dest"]["local"] == 0]
         ctx.check(all(b.edge_guards((sw0[0][0], brk[0]), x) for x in nones + resid) and bool(nones + resid), "DEC", b, "none-only-when-exhausted", b.span,
                   "the decoder returns None only when the source is exhausted at a character boundary")
+    # the returned char comes from that code through from_u32_unchecked only
+    fu = S.keyed(lambda k: k.endswith("from_u32_unchecked") or k.endswith("char::from_u32"))
+    ctx.check(len(fu) == 1, "DEC", b, "single-char-construction", b.span, "one char construction from the assembled code point")
+    # the decoder's source is the enumerate created in the constructor
+    cb = lib.one_body(adt=DECODER, name="new")
+    if cb is not None:
+        CS, lits = _ctor_literal(lib, cb, DECODER)
+        okc = len(lits) == 1 and m(C("core::iter::Iterator::enumerate", Par(1)), dict(lits[0][3]).get("inner", ("undef",)))
+        ctx.check(okc, "DEC", cb, "enumerate-from-zero", cb.span, "byte indices must come from enumerate() over the raw source, created once")
+        f = lib.fns.get(cb.path)
+        ctx.check(f is not None and f["unsafe"], "SAFE-API", cb, "decoder-ctor-unsafe", cb.span,
+                  "CharWithEndOffsetIterator::new must stay `unsafe` (its caller vouches for valid UTF-8)")
+
+
+def rule_dec(ctx, R):
+    lib = ctx.lib
+    nb = lib.find_bodies(adt=DECODER, trait="core::iter::Iterator", name="next")
+    if len(nb) != 1:
+        ctx.missing("DEC", "Iterator::next of " + DECODER)
+        return
+    b = nb[0]
+    S = Sites(lib, b)
+    root = S.root
+    # accepted alternative: delegation to core::str decoding
+    if any(s["key"].startswith("core::str::") and ("next_code_point" in s["key"] or "chars" in s["key"] or "from_utf8" in s["key"]) for s in S.calls):
+        ctx.ok("DEC", b, "delegates-to-core", b.span, "decoding is delegated to core::str")
+        return
+    pulls = [s for s in S.keyed(lambda k: core.callee_base(k) == ITER_NEXT) if m(F(Par(1), "inner"), s["args"][0])]
+    pulls = sorted(pulls, key=lambda s: len(b.dominators().get(s["bb"], ())))
+    verdict, text = _dec_table(lib, b, S, pulls)
+    ctx.note("dec_table", [verdict, text])
+    ctx.check(verdict != "mismatch", "DEC", b, "decision-table", b.span,
+              "for every valid UTF-8 lead byte the decoder pulls exactly the bytes of that sequence and assembles (end offset, code point) as "
+              "in RFC 3629; " + text)
+    table = verdict == "ok"
+    nested = len(pulls) == 4 and all(b.dominates(pulls[i]["bb"], pulls[i + 1]["bb"]) for i in range(len(pulls) - 1))
+    # the syntactic clauses below (nested-if form) are an alternative to the table: they decide when the table is inconclusive
+    ctx.check(table or nested, "DEC", b, "four-nested-pulls", b.span,
+              "the decoder pulls at most four bytes, each later pull only after the earlier ones; found %d pull sites (decision table: %s)"
+              % (len(pulls), text))
+    if not nested:
+        if table:
+            _dec_common(ctx, lib, b, S, pulls)
+        return
+    psites = [(b.path, s["bb"]) for s in pulls]
+    _dec_common(ctx, lib, b, S, pulls)
     first = F(P(C(anykey, ANY, site=psites[0])), "1", "(tuple)")
     # threshold guards on the first byte, normalised to `first < c`
     guards = {}
@@ -339,18 +461,6 @@ def rule_dec(ctx, R):
         sbi, tt, ff = guards[THRESH[i - 1]]
         ctx.check(b.edge_guards((sbi, ff), pulls[i]["bb"]), "DEC", b, "pull-%d-only-if-needed" % (i + 1), b.loc(pulls[i]["bb"]),
                   "byte %d is pulled only for sequences longer than %d bytes (laziness; unwrap_unchecked relies on valid UTF-8)" % (i + 1, i))
-    # the returned char comes from that code through from_u32_unchecked only
-    fu = S.keyed(lambda k: k.endswith("from_u32_unchecked") or k.endswith("char::from_u32"))
-    ctx.check(len(fu) == 1, "DEC", b, "single-char-construction", b.span, "one char construction from the assembled code point")
-    # the decoder's source is the enumerate created in the constructor
-    cb = lib.one_body(adt=DECODER, name="new")
-    if cb is not None:
-        CS, lits = _ctor_literal(lib, cb, DECODER)
-        okc = len(lits) == 1 and m(C("core::iter::Iterator::enumerate", Par(1)), dict(lits[0][3]).get("inner", ("undef",)))
-        ctx.check(okc, "DEC", cb, "enumerate-from-zero", cb.span, "byte indices must come from enumerate() over the raw source, created once")
-        f = lib.fns.get(cb.path)
-        ctx.check(f is not None and f["unsafe"], "SAFE-API", cb, "decoder-ctor-unsafe", cb.span,
-                  "CharWithEndOffsetIterator::new must stay `unsafe` (its caller vouches for valid UTF-8)")
 
 
 # ----------------------------------------------------------------------------- SAFE-API / ENC / SAFE-INV / UTF8-CTOR
